@@ -3,7 +3,8 @@ package main
 // Shared variables of C20 and the lock aliases of each package.
 
 func init() {
-	registerAcc(accPkg{dir: "broker", ctors: `^(NewBrokerContext|NewMetrics|initPrometheus|NewRoundedCounterVec|newRoundedCounter|main)$`,
+	heapCB := []string{"SnowflakeHeap.Push", "SnowflakeHeap.Pop", "SnowflakeHeap.Swap", "SnowflakeHeap.Less", "SnowflakeHeap.Len"}
+	registerAcc(accPkg{dir: "broker", callbacks: map[string][]string{`heap\.(Push|Pop|Remove|Fix|Init)`: heapCB}, ctors: `^(NewBrokerContext|NewMetrics|initPrometheus|NewRoundedCounterVec|newRoundedCounter|main)$`,
 		aliases: []lockAlias{
 			{`.`, `(\w+\.)*snowflakeLock`, "broker.snowflakeLock"},
 			{`.`, `(\w+\.)*metrics\.lock`, "broker.metrics.lock"},
@@ -12,58 +13,66 @@ func init() {
 			{`^bridge-list\.go$`, `h\.accessBridgeInfo`, "broker.bridgeList.lock"},
 		},
 		vars: []accVar{
-			{"broker.snowflakes", `.`, `(\w+\.)*ctx\.snowflakes`},
-			{"broker.restrictedSnowflakes", `.`, `(\w+\.)*ctx\.restrictedSnowflakes`},
-			{"broker.idToSnowflake", `.`, `(\w+\.)*ctx\.idToSnowflake`},
-			{"broker.Snowflake.index", `^(broker|snowflake-heap)\.go$`, `(snowflake|sh\[\w\]|sh\[\w+\])\.index`},
-			{"broker.Metrics.clientRoundtripEstimate", `.`, `(\w+\.)*(metrics|m)\.clientRoundtripEstimate`},
-			{"broker.Metrics.proxyIdleCount", `.`, `(\w+\.)*(metrics|m)\.proxyIdleCount`},
-			{"broker.Metrics.clientDeniedCount", `.`, `(\w+\.)*(metrics|m)\.clientDeniedCount`},
-			{"broker.Metrics.clientRestrictedDeniedCount", `.`, `(\w+\.)*(metrics|m)\.clientRestrictedDeniedCount`},
-			{"broker.Metrics.clientUnrestrictedDeniedCount", `.`, `(\w+\.)*(metrics|m)\.clientUnrestrictedDeniedCount`},
-			{"broker.Metrics.clientProxyMatchCount", `.`, `(\w+\.)*(metrics|m)\.clientProxyMatchCount`},
-			{"broker.Metrics.proxyPollWithRelayURLExtension", `.`, `(\w+\.)*(metrics|m)\.proxyPollWithRelayURLExtension`},
-			{"broker.Metrics.proxyPollWithoutRelayURLExtension", `.`, `(\w+\.)*(metrics|m)\.proxyPollWithoutRelayURLExtension`},
-			{"broker.Metrics.proxyPollRejectedWithRelayURLExtension", `.`, `(\w+\.)*(metrics|m)\.proxyPollRejectedWithRelayURLExtension`},
-			{"broker.Metrics.countryStats", `^metrics\.go$`, `m\.countryStats(\.\w+)?`},
-			{"broker.Metrics.geoipdb", `^metrics\.go$`, `m\.geoipdb`},
-			{"broker.roundedCounter.total", `^prometheus\.go$`, `c\.total`},
-			{"broker.roundedCounter.value", `^prometheus\.go$`, `c\.value`},
-			{"broker.bridgeList.bridgeInfo", `^bridge-list\.go$`, `h\.bridgeInfo`},
+			{"broker.snowflakes", `.`, `(\w+\.)*ctx\.snowflakes`, ""},
+			{"broker.restrictedSnowflakes", `.`, `(\w+\.)*ctx\.restrictedSnowflakes`, ""},
+			{"broker.idToSnowflake", `.`, `(\w+\.)*ctx\.idToSnowflake`, ""},
+			{"broker.Snowflake.index", `^(broker|snowflake-heap)\.go$`, `(snowflake|sh\[\w\]|sh\[\w+\])\.index`, ""},
+			{"broker.SnowflakeHeap.items", `^snowflake-heap\.go$`, `sh|\*sh`, ""},
+			{"broker.Metrics.clientRoundtripEstimate", `.`, `(\w+\.)*(metrics|m)\.clientRoundtripEstimate`, ""},
+			{"broker.Metrics.proxyIdleCount", `.`, `(\w+\.)*(metrics|m)\.proxyIdleCount`, ""},
+			{"broker.Metrics.clientDeniedCount", `.`, `(\w+\.)*(metrics|m)\.clientDeniedCount`, ""},
+			{"broker.Metrics.clientRestrictedDeniedCount", `.`, `(\w+\.)*(metrics|m)\.clientRestrictedDeniedCount`, ""},
+			{"broker.Metrics.clientUnrestrictedDeniedCount", `.`, `(\w+\.)*(metrics|m)\.clientUnrestrictedDeniedCount`, ""},
+			{"broker.Metrics.clientProxyMatchCount", `.`, `(\w+\.)*(metrics|m)\.clientProxyMatchCount`, ""},
+			{"broker.Metrics.proxyPollWithRelayURLExtension", `.`, `(\w+\.)*(metrics|m)\.proxyPollWithRelayURLExtension`, ""},
+			{"broker.Metrics.proxyPollWithoutRelayURLExtension", `.`, `(\w+\.)*(metrics|m)\.proxyPollWithoutRelayURLExtension`, ""},
+			{"broker.Metrics.proxyPollRejectedWithRelayURLExtension", `.`, `(\w+\.)*(metrics|m)\.proxyPollRejectedWithRelayURLExtension`, ""},
+			{"broker.Metrics.countryStats", `^metrics\.go$`, `m\.countryStats(\.\w+)?`, ""},
+			{"broker.Metrics.geoipdb", `^metrics\.go$`, `m\.geoipdb`, ""},
+			{"broker.roundedCounter.total", `^prometheus\.go$`, `c\.total`, ""},
+			{"broker.roundedCounter.value", `^prometheus\.go$`, `c\.value`, ""},
+			{"broker.bridgeList.bridgeInfo", `^bridge-list\.go$`, `h\.bridgeInfo`, ""},
 		}})
-	registerAcc(accPkg{dir: "common/turbotunnel", ctors: `^(NewClientMap|NewQueuePacketConn|NewRedialPacketConn)$`,
+	registerAcc(accPkg{dir: "common/turbotunnel", exported: true, ctors: `^(NewClientMap|NewQueuePacketConn|NewRedialPacketConn)$`,
 		aliases: []lockAlias{{`^clientmap\.go$`, `m\.lock`, "turbotunnel.ClientMap.lock"}},
 		vars: []accVar{
-			{"turbotunnel.ClientMap.inner", `^clientmap\.go$`, `m\.inner`},
+			{name: "turbotunnel.ClientMap.inner", files: `^clientmap\.go$`, expr: `m\.inner`, mut: `SendQueue|removeExpired`},
 		}})
-	registerAcc(accPkg{dir: "server/lib", ctors: `^(newClientIDMap)$`,
+	registerAcc(accPkg{dir: "server/lib", exported: true, ctors: `^(newClientIDMap)$`,
 		aliases: []lockAlias{{`^turbotunnel\.go$`, `m\.lock`, "server.clientIDMap.lock"}},
 		vars: []accVar{
-			{"server.clientIDMap.entries", `^turbotunnel\.go$`, `m\.entries`},
-			{"server.clientIDMap.oldest", `^turbotunnel\.go$`, `m\.oldest`},
-			{"server.clientIDMap.current", `^turbotunnel\.go$`, `m\.current`},
+			{"server.clientIDMap.entries", `^turbotunnel\.go$`, `m\.entries`, ""},
+			{"server.clientIDMap.oldest", `^turbotunnel\.go$`, `m\.oldest`, ""},
+			{"server.clientIDMap.current", `^turbotunnel\.go$`, `m\.current`, ""},
 		}})
-	registerAcc(accPkg{dir: "client/lib", ctors: `^(NewPeers|NewWebRTCPeer|NewWebRTCPeerWithEvents)$`,
+	registerAcc(accPkg{dir: "client/lib", exported: true, assume: map[string][]string{"Peers.Count": {"client.Peers.collectLock"}}, ctors: `^(NewPeers|NewWebRTCPeer|NewWebRTCPeerWithEvents)$`,
 		aliases: []lockAlias{
 			{`^peers\.go$`, `p\.collectLock`, "client.Peers.collectLock"},
-			{`^webrtc\.go$`, `c\.mu`, "client.WebRTCPeer.mu"},
+			{`^(webrtc|peers)\.go$`, `(c|snowflake)\.mu`, "client.WebRTCPeer.mu"},
+			{`^rendezvous\.go$`, `bc\.lock`, "client.BrokerChannel.lock"},
 		},
 		vars: []accVar{
-			{"client.Peers.activePeers", `^peers\.go$`, `p\.activePeers`},
-			{"client.WebRTCPeer.lastReceive", `^webrtc\.go$`, `c\.lastReceive`},
-			{"client.WebRTCPeer.bytesLogger", `^(webrtc|peers|snowflake)\.go$`, `(c|connection|snowflake|conn)\.bytesLogger`},
+			{name: "client.Peers.activePeers", files: `^peers\.go$`, expr: `p\.activePeers`, mut: `PushBack|PushFront|Remove|Init|MoveToFront|MoveToBack|InsertBefore|InsertAfter`},
+			{"client.WebRTCPeer.lastReceive", `^webrtc\.go$`, `c\.lastReceive`, ""},
+			{"client.BrokerChannel.natType", `^rendezvous\.go$`, `bc\.natType`, ""},
 		}})
-	registerAcc(accPkg{dir: "proxy/lib", ctors: `^(newBytesSyncLogger|NewProxyEventLogger|newTokens)$`,
-		aliases: []lockAlias{{`^webrtcconn\.go$`, `c\.lock`, "proxy.webRTCConn.lock"}},
+	registerAcc(accPkg{dir: "proxy/lib", exported: true, ctors: `^(newBytesSyncLogger|NewProxyEventLogger|newTokens)$`,
+		aliases: []lockAlias{
+			{`^(webrtcconn|snowflake)\.go$`, `(c|conn)\.lock`, "proxy.webRTCConn.lock"},
+			{`^pt_event_logger\.go$`, `p\.lock`, "proxy.logEventLogger.lock"},
+			{`^util\.go$`, `b\.lock`, "proxy.bytesSyncLogger.lock"},
+			{`^snowflake\.go$`, `currentNATTypeAccess`, "proxy.currentNATTypeAccess"},
+		},
 		vars: []accVar{
-			{"proxy.bytesSyncLogger.outbound", `^util\.go$`, `b\.outbound`},
-			{"proxy.bytesSyncLogger.inbound", `^util\.go$`, `b\.inbound`},
-			{"proxy.bytesSyncLogger.outEvents", `^util\.go$`, `b\.outEvents`},
-			{"proxy.bytesSyncLogger.inEvents", `^util\.go$`, `b\.inEvents`},
-			{"proxy.logEventLogger.inboundSum", `^pt_event_logger\.go$`, `p\.inboundSum`},
-			{"proxy.logEventLogger.outboundSum", `^pt_event_logger\.go$`, `p\.outboundSum`},
-			{"proxy.logEventLogger.connectionCount", `^pt_event_logger\.go$`, `p\.connectionCount`},
-			{"proxy.tokens.clients", `^tokens\.go$`, `t\.clients`},
-			{"proxy.webRTCConn.dc", `^(webrtcconn|snowflake)\.go$`, `(c|conn)\.dc`},
+			{"proxy.bytesSyncLogger.outbound", `^util\.go$`, `b\.outbound`, ""},
+			{"proxy.bytesSyncLogger.inbound", `^util\.go$`, `b\.inbound`, ""},
+			{"proxy.bytesSyncLogger.outEvents", `^util\.go$`, `b\.outEvents`, ""},
+			{"proxy.bytesSyncLogger.inEvents", `^util\.go$`, `b\.inEvents`, ""},
+			{"proxy.logEventLogger.inboundSum", `^pt_event_logger\.go$`, `p\.inboundSum`, ""},
+			{"proxy.logEventLogger.outboundSum", `^pt_event_logger\.go$`, `p\.outboundSum`, ""},
+			{"proxy.logEventLogger.connectionCount", `^pt_event_logger\.go$`, `p\.connectionCount`, ""},
+			{"proxy.tokens.clients", `^tokens\.go$`, `t\.clients`, ""},
+			{"proxy.currentNATType", `^snowflake\.go$`, `currentNATType`, ""},
+			{"proxy.webRTCConn.dc", `^(webrtcconn|snowflake)\.go$`, `(c|conn)\.dc`, ""},
 		}})
 }
